@@ -53,7 +53,7 @@ theorem sliceByLine_noCtx {cfg : Config} (m : MatcherI) (h : NoCtx cfg) (inp : B
       | last l hu => simp at hfl; exact absurd hfl hu.1
       | cons l ls' ht _ => simp at hfl; exact absurd hfl.1 ht.ne_nil
     subst hls
-    simp [sliceLoop, st0, Core.new, finish, emit_allCont, byteCount, Run.events, lineEvs]
+    simp [sliceLoop, st0, Core.new, finish, emit_allCont, byteCount, ite_self, Run.events, lineEvs]
   · obtain ⟨st', hrun, hA⟩ := matchByLineSlow_buffer m h inp (st0 cfg) ls hg hfl rfl rfl rfl rfl
     have hfast : isLineByLineFast cfg m (st0 cfg) = false := by
       rw [isLineByLineFast_noson cfg m h.hson (st0 cfg) (Core.new cfg true)]; exact hslow
@@ -78,7 +78,7 @@ theorem sliceByLine_noCtx {cfg : Config} (m : MatcherI) (h : NoCtx cfg) (inp : B
         simp [hpos]
     dsimp only
     rw [hloop]
-    simp only [finish, emit_allCont, byteCount, hA.bin, hpos, Run.events]
+    simp only [finish, emit_allCont, byteCount, ite_self, hA.bin, hpos, Run.events]
     rw [hA.ev]
     simp [st0, Core.new, lnAt_zero, ln0]
 
